@@ -54,10 +54,15 @@ Hosts == {TagHtml("div"), TagComp("Foo", TRUE, Opq("vFoo")), TagComp("Bar", FALS
 AttrSeqs == UNION {{[i \in 1..m |-> AttrAt(ks[i], i, "")] : ks \in [1..m -> AttrKinds]} : m \in 0..MaxAttrs}
 KidSeqs  == UNION {{[j \in 1..m |-> KidAt(ks[j], j)] : ks \in [1..m -> KidKinds]} : m \in 0..MaxKids}
 
-NamesOK(as) ==       \* only class / style / listeners / spreads / on may repeat
+NamesOK(as) ==       \* only class / style / listeners / spreads may repeat (and `on` objects under transformOn, OnOK)
   \A i, j \in 1..Len(as) : i < j /\ as[i].k = as[j].k /\ as[i].k \in {"vhtml", "vmodel", "vslots"} => FALSE
 ValidFor(h, as) == (h.k = "frag" => as = <<>>) /\ NamesOK(as)
                    /\ \A i, j \in 1..Len(as) : i < j => ~(as[i].k \in {"vmodel", "vhtml"} /\ as[j].k = as[i].k)
+
+(* a repeated `on` attribute is a repeated listener *object* only under transformOn; without it `on` is a     *)
+(* plain prop name, and repeated plain names are outside the domain (DESIGN 6.0) - the code folds every name *)
+(* starting with "on" into an array at the first position, like the Babel plugin                             *)
+OnOK(as, ton) == ton \/ \A i, j \in 1..Len(as) : i < j => ~(as[i].k = "plain" /\ as[j].k = "plain" /\ as[i].name = "on" /\ as[j].name = "on")
 
 Opt(mp, eos, ton) == [DefaultOpts EXCEPT !.mergeProps = mp, !.enableObjectSlots = eos, !.transformOn = ton, !.optimize = TRUE]
 
@@ -95,7 +100,7 @@ RawB(n) ==
   IN [tag |-> Host3Q[h], attrs |-> Attr3Q[a], kids |-> Kid3Q[k], oc |-> OptQ[o]]
 
 RawSeq == SelectSeq([n \in 1..(NA + NB) |-> IF n <= NA THEN RawA(n - 1) ELSE RawB(n - NA - 1)],
-                    LAMBDA r : ValidFor(r.tag, r.attrs))
+                    LAMBDA r : ValidFor(r.tag, r.attrs) /\ OnOK(r.attrs, Combo(r.oc)[3]))
 
 CaseSeq ==
   [i \in 1..Len(RawSeq) |->
